@@ -35,6 +35,20 @@ CHECKS = {
         text="Exploration. InplaceInterpreter (execute and execute_limited with an unlimited budget) against the canonical event sequence on generated programs at all four widths.",
         note=TB,
         design="5 C04"),
+    "C05": dict(
+        technique="runtime monitoring: bounded-window observation of forked executions (returned flag + shared-memory event log) against divergence proved by exact state recurrence in the canonical interpreter",
+        text=("Exploration of a bounded restatement. Divergence of the canonical run is proved (Brent cycle detection on full machine states); each back end x level is then observed in a forked child for a window "
+              ">= 100x the canonical time: a return inside the window is a definite violation, the event log at the end of the window must match the canonical events, missing events are confirmed by an isolated 10x re-run. "
+              "Canonically halting cases must return with the canonical log under a watchdog."),
+        note=TB + "'Never returns' cannot be decided by a finite run; only 'returns within the window' is refuted. Wrap-dependent divergence is reachable at 8/16 bit only; roaming divergence is outside the quantifier.",
+        design="5 C05"),
+    "C17": dict(
+        category="fault_enumeration",
+        technique="runtime monitoring with fault injection: the harness' global allocator fails the k-th allocation made during execute, enumerated over k; exit status / signal classification + event-log prefix check",
+        text=("Fault enumeration. For each growth-heavy program, back end and level the allocations made during execute are counted in a clean run and then each one is failed in turn in a forked child; the run must end by the "
+              "allocation-failure abort or a panic before any memory fault, with the events so far a prefix of the canonical run."),
+        note="Trusted base: the interposed global allocator and the SIGSEGV/SIGBUS handler. A write through a null-based pointer that happens to hit mapped memory would not fault; the first pages are unmapped in the children.",
+        design="5 C17"),
     "C06": dict(
         technique="runtime monitoring: guard-page global allocator (every allocation made during execute flush against PROT_NONE pages, left and right; freed blocks stay inaccessible) + I/O event-log oracle on roaming programs",
         text=("Exploration. All four back ends run roaming / scanning / register-pressure programs twice in forked children whose global allocator places every "
